@@ -559,8 +559,10 @@ fn parse_literal(ast: &ast::Literal, context: &mut Context) -> TyperResult<Typed
         ast::Literal::Bool(b) => ir::Constant::Bool(*b),
         ast::Literal::IntUntyped(i) => ir::Constant::IntLiteral(*i as i128),
         ast::Literal::IntUnsigned32(i) => ir::Constant::UInt32(*i as u32),
-        ast::Literal::IntUnsigned64(i) => ir::Constant::UInt64(*i),
-        ast::Literal::IntSigned64(i) => ir::Constant::Int64(*i),
+        ast::Literal::IntUnsigned64(_) | ast::Literal::IntSigned64(_) => {
+            // There is no type to give the literal
+            return Err(TyperError::LongIntegerNotSupported(SourceLocation::UNKNOWN));
+        }
         ast::Literal::FloatUntyped(f) => ir::Constant::FloatLiteral(*f),
         ast::Literal::Float16(f) => ir::Constant::Float16(*f),
         ast::Literal::Float32(f) => ir::Constant::Float32(*f),
